@@ -19,6 +19,8 @@ pub fn random_opts<const N: usize>(ctx: &mut Ctx, ms: &[Scalar]) -> [Option<Scal
         match ctx.prng.gen_range(0..6) {
             0 => *o = Some(edge_scalar(&mut ctx.prng)),
             1 if ms[i] == Scalar::zero() => *o = Some(Scalar::zero()),
+            // a linked commitment scalar that is exactly 0 / 1 / q-1 (public-product with a zero factor, a partner's zero draw)
+            2 => *o = Some([Scalar::zero(), Scalar::zero(), Scalar::one(), crate::dl::q_minus_1()][ctx.prng.gen_range(0..4)]),
             _ => {}
         }
     }
